@@ -326,7 +326,7 @@ def main():
                      'kind_free_text': 'Lean 4 theorems about an executable model (lean/), tied to the code by regenerated constants (gen/extract.py) and by trace correspondence between the real driver under sanitizers with a chip simulator (harness/sxh.c) and the compiled model (sxmodel)'}],
         'checks': checks,
         'not_applicable': na,
-        'notes': 'fix: commits in /repo and open findings are listed in known_findings.json; DESIGN.md describes the approach.',
+        'notes': 'fix: commits in /repo (23, the last two found in this session through seeded changes: 7c730f6, 45f1662) and the one open finding are listed in known_findings.json; DESIGN.md section 13 is the as-built record (13.11 theorems per property, 13.5 the 137 seeded breaking changes under seeded/ and which check reports each, 13.19 the SPI backend model, 13.22 the float->integer conversions). Every check was run on the unchanged tree at VERIF_SEED 1..6 (quick) and once in the thorough tier without an alarm.',
     }
     json.dump(m, open(os.path.join(ROOT, 'MANIFEST.json'), 'w'), indent=1)
     print('MANIFEST: %d checks, %d not applicable' % (len(checks), len(na)))
